@@ -383,7 +383,7 @@ Section Writer.
     destruct (append_spec rollover st buf r st' Hwf H) as [_ Hr].
     destruct r; try contradiction; [reflexivity|].
     exfalso. destruct Hr as (k & Hpad & _ & [Hc|Hc]); [contradiction|].
-    assert (Hk : k <= HEADER_MAX_SIZE) by (destruct Hpad as [->|[Hk _]]; unfold HEADER_MAX_SIZE; lia).
+    assert (Hk : k <= HEADER_MAX_SIZE) by (destruct Hpad as [->|[Hk _]]; unfold HEADER_MAX_SIZE in *; lia).
     assert (Hl64 : len buf < W64) by (pose proof tfs_lt; lia).
     pose proof (header_frame_len_bound _ (hdr_ok HEADER_WHOLE buf (proj1 disc_small) Hl64)) as HL.
     rewrite frame_len in Hc. lia.
